@@ -16,6 +16,16 @@ ann = json.load(open(os.path.join(ROOT, "seeded", "annotations.json")))
 taken = [(k, v) for k, v in sorted(ann.items()) if k.split("-")[0] == pid]
 
 FOCUS = {
+    "9": """This is a SHORT round: deliver ONE change only (directory ...-r9-1), the best you can find, and spend the rest of your effort
+on the remarks file. For the change, prefer what no earlier round touched: look at the list of taken ideas, find the source
+file, function or code path of this property that NONE of them modified, and plant the change there; or combine this
+property's mechanism with a feature none of the taken ideas involved (compression, fragmentation, NetConn, wsjson,
+CloseRead, subprotocols, the client role, the server role, Ping, a second connection, a reused options value).
+For the remarks: read the property sentence by sentence and, for each clause, try to make the UNCHANGED library violate it
+with a test you actually run (hostile or unusual peers, unusual but legal API use: zero-length buffers, nil or reused
+arguments, calls in an unusual order, calls repeated, calls after an error, deadlines in the past, contexts already done,
+two goroutines). Report every clause you could break, with input, expected, observed - and say clearly which clause of
+the property text it contradicts.""",
     "8": """This round asks for kinds of change the earlier rounds under-used. Prefer, in this order:
   (a) FEATURE INTERACTIONS: a change that is invisible while each feature is used alone and shows only when two or three are
       combined (compression x fragmentation x control frames; NetConn x deadlines x ping; CloseRead x Close x a blocked
